@@ -37,7 +37,9 @@ import (
 	"unicode/utf8"
 
 	"github.com/grafana/carbon-relay-ng/aggregator"
+	"github.com/grafana/carbon-relay-ng/destination"
 	"github.com/grafana/carbon-relay-ng/matcher"
+	"github.com/grafana/carbon-relay-ng/route"
 	"github.com/grafana/carbon-relay-ng/table"
 
 	"verifharness/mon"
@@ -712,14 +714,51 @@ func (k *checker) destWord(i int, f fspec) (word, key string) {
 	if o := f.cmdOpts(); o != "" {
 		word += " " + o
 	}
-	return word + " spool=false pickle=false reconn=3600000", addr
+	return word + " spool=false reconn=3600000", addr
+}
+
+// apiRoute builds a carbon route with the constructors the commands end up
+// calling (parsing a command costs ~25 ms of CPU under the race detector, so not
+// every route of places 3 and 6 is built by command; every route of place 4 is).
+// The destinations have no filter, no spool and point at the refusing address.
+func (k *checker) apiRoute(t *table.Table, typ, key string, spec fspec, ndest int) ([]string, error) {
+	m, err := spec.real()
+	if err != nil {
+		return nil, err
+	}
+	var dests []*destination.Destination
+	var dkeys []string
+	for i := 0; i < ndest; i++ {
+		addr := fmt.Sprintf("%s:i%d", k.addr, i)
+		d, err := destination.New(key, emptyMatcher(), addr, "", false, false, time.Second, time.Hour, 30000, 2000000, 10000, 200*1024*1024, 10000, time.Second, 500*time.Microsecond, 10*time.Microsecond)
+		if err != nil {
+			panic(err)
+		}
+		dests = append(dests, d)
+		dkeys = append(dkeys, mon.KeyDestDropNoConn(mon.DestKey(key, addr)))
+	}
+	var rt route.Route
+	switch typ {
+	case "sendAllMatch":
+		rt, err = route.NewSendAllMatch(key, m, dests)
+	case "sendFirstMatch":
+		rt, err = route.NewSendFirstMatch(key, m, dests)
+	default:
+		rt, err = route.NewConsistentHashing(key, m, dests)
+	}
+	if err != nil {
+		panic(err)
+	}
+	t.AddRoute(rt)
+	return dkeys, nil
 }
 
 // place 3: the filter of the route itself.
 func (p *routePlace) runRoute(idx int) {
 	k := p.k
 	r := mon.NewRng(mon.Seed(), 30, uint64(idx))
-	c := genFilter(r, false, true, true)
+	viaCmd := r.Chance(1, 2)
+	c := genFilter(r, false, viaCmd, true)
 	typ := r.Pick([]string{"sendAllMatch", "sendAllMatch", "sendFirstMatch", "consistentHashing"})
 	key := fmt.Sprintf("c03r%d", idx)
 	ndest := 1
@@ -733,10 +772,18 @@ func (p *routePlace) runRoute(idx int) {
 		dkeys = append(dkeys, mon.KeyDestDropNoConn(mon.DestKey(key, addr)))
 	}
 	cmd := fmt.Sprintf("addRoute %s %s %s  %s", typ, key, c.Spec.cmdOpts(), strings.Join(words, "  "))
+	if !viaCmd {
+		cmd = fmt.Sprintf("route.New(%s, %s, matcher.New{%s}, %d destinations) + Table.AddRoute", typ, key, c.Spec.cmdOpts(), ndest)
+	}
 	k.res.LogCase("route %d %s", idx, cmd)
 	k.res.Eval(1)
 	f, oerr := c.Spec.oracle()
-	aerr := mon.Apply(p.t, cmd)
+	var aerr error
+	if viaCmd {
+		aerr = mon.Apply(p.t, cmd)
+	} else {
+		_, aerr = k.apiRoute(p.t, typ, key, c.Spec, ndest)
+	}
 	if aerr == nil {
 		defer func() {
 			if err := p.t.DelRoute(key); err != nil {
@@ -1257,7 +1304,7 @@ func (p *aggRoutePlace) run(idx int) {
 		realCase = fcase{Spec: fspec{Regex: "cpu$"}, seed: "agg.cpu"}
 		names = []string{"agg.cpu", "agg.mem", "cpu", "agg.cpu5"}
 	} else {
-		realCase = genFilter(r, false, true, true)
+		realCase = genFilter(r, false, false, true)
 		names = realCase.names(r, 3, 1)
 	}
 	for i := 0; i < ncap; i++ {
@@ -1276,14 +1323,14 @@ func (p *aggRoutePlace) run(idx int) {
 		routes = append(routes, rtObs{spec: c.Spec, f: f, cap: mon.NewCaptureRoute(key, m, nil), key: key})
 	}
 	rkey := fmt.Sprintf("c03ar%d", idx)
-	w, addr := k.destWord(0, fspec{})
-	cmd := fmt.Sprintf("addRoute sendAllMatch %s %s  %s", rkey, realCase.Spec.cmdOpts(), w)
-	dkey := mon.KeyDestDropNoConn(mon.DestKey(rkey, addr))
+	cmd := fmt.Sprintf("route.NewSendAllMatch(%s, matcher.New{%s}, 1 destination) + Table.AddRoute", rkey, realCase.Spec.cmdOpts())
 	k.res.LogCase("aggregate-routing %d interval=%d cache=%v %s + %d capture routes", idx, interval, cache, cmd, len(routes))
 	k.res.Eval(1)
 	fr, oerr := realCase.Spec.oracle()
-	aerr := mon.Apply(p.t, cmd)
+	dks, aerr := k.apiRoute(p.t, "sendAllMatch", rkey, realCase.Spec, 1)
+	dkey := ""
 	if aerr == nil {
+		dkey = dks[0]
 		defer p.t.DelRoute(rkey)
 	}
 	if oerr != nil || aerr != nil {
